@@ -1,8 +1,8 @@
 #!/bin/sh
-# usage: seed_regress.sh [ids...] : run every seeded change against the property it was written for; one line per seed
+# usage: seed_regress.sh [ids...] : run every seeded change against the first property its meta.json names under caught_by
 cd /verif
 for d in ${@:-$(ls seeded | grep -v RESULTS)}; do
-  p=$(echo $d | cut -d- -f1)
+  p=$(python3 -c "import json,re,sys; m=json.load(open('/verif/seeded/$d/meta.json')); print(re.findall(r'C\d\d', m['caught_by'])[0])")
   out=$(sh tools/run_seed.sh /verif/seeded/$d/patch.diff $p 2>&1)
   v=$(echo "$out" | grep -c "^VIOLATION")
   nf=$(echo "$out" | grep "^VIOLATION" | grep -vc "no-failing-input-found")
